@@ -140,67 +140,108 @@ def check(prog, run):
         run.report(r, "%s:__InputValue__:defaultValue" % INTRO, "src/py_gql/schema/introspection.py", "defaultValue is not produced by _format_default_value")
 
     # ---- T4 disable switch and deprecated filtering
-    r = run.rule("T4", "the disable switch hides exactly the three meta fields (checked inside the meta-name branch, before any "
-                       "meta field is returned); includeDeprecated resolvers keep a member iff it is not deprecated or the flag is set", 2)
+    r = run.rule("T4", "ResolutionContext.field_definition decided row by row (field name x disable switch x parent-is-query-type; every "
+                       "test on the name alone folded for the sample names __schema, __type, __typename, x, _x, x__y): a meta name yields "
+                       "its own meta field (by the Field(\"__x\") it is defined as) when enabled, on the right parent, and None when "
+                       "disabled; an ordinary name yields the parent type's own field whatever the switch says; includeDeprecated "
+                       "resolvers keep a member iff it is not deprecated or the flag is set", 2)
     fdn = prog.get_func(WRAP, "ResolutionContext.field_definition")
     run.looked_at(fdn)
     from .. import boolx
-    member_tests = [n for n in own_nodes(fdn.node) if isinstance(n, ast.Compare) and len(n.ops) == 1 and isinstance(n.ops[0], (ast.In, ast.NotIn))
-                    and "__schema" in ast.unparse(n.comparators[0])]
-    shapes.require(len(member_tests) == 1, "C15.T4: meta-name membership test not found in field_definition")
-    names = set(prog.fold(prog.module(WRAP), member_tests[0].comparators[0]))
-    r.instance("meta names %s" % sorted(names))
-    if names != {"__schema", "__type", "__typename"}:
-        run.report(r, "%s:ResolutionContext.field_definition:meta-names" % WRAP, fdn.where(member_tests[0]), "meta-name branch covers %s" % sorted(names))
-    member_atom = boolx.canonical_atom(member_tests[0])[0]
-    name_var = ast.unparse(member_tests[0].left)
+    # Path form with concrete field names: every test of field_definition that mentions only the name parameter and
+    # constants is folded for a sample name; the switch and the "parent is the query type" test are set per row.
+    fargs = [x for x in fdn.node.args.args if x.arg != "self"]
+    name_var = next((x.arg for x in fargs if x.annotation is not None and ast.unparse(x.annotation) == "str"), None)
+    parent_var = next((x.arg for x in fargs if x.arg != name_var), None)
+    shapes.require(name_var is not None and parent_var is not None, "C15.T4: parameters of field_definition not recognised")
+    consts = set()
+    for n in own_nodes(fdn.node):
+        if isinstance(n, ast.Compare) and any(isinstance(x, ast.Name) and x.id == name_var for x in ast.walk(n)):
+            consts |= {x.value for x in ast.walk(n) if isinstance(x, ast.Constant) and isinstance(x.value, str)}
+    r.instance("names the lookup compares with: %s" % sorted(consts))
+    METAS = ("__schema", "__type", "__typename")
+    for extra in sorted(consts - set(METAS)):
+        run.report(r, "%s:ResolutionContext.field_definition:meta-names" % WRAP, fdn.where(), "the lookup special-cases the name %r" % extra)
 
-    def returned(st, env):
-        atoms = {a: b for a, b in env.items() if a not in boolx.META}
-        return boolx.path_value(env.get(boolx.STMTS, ()), st, st.value, atoms) if st.value is not None else ast.Constant(value=None)
+    def fold_name_test(t, sample):
+        try:
+            e = ast.parse(t, mode="eval")
+        except SyntaxError:
+            return None
+        names = {x.id for x in ast.walk(e) if isinstance(x, ast.Name)}
+        if names != {name_var} or any(isinstance(x, (ast.Call,)) and not (isinstance(x.func, ast.Attribute) and isinstance(x.func.value, ast.Name)
+                                                                         and x.func.value.id == name_var) for x in ast.walk(e)):
+            return None
+        try:
+            return bool(eval(compile(e, "<test>", "eval"), {"__builtins__": {}}, {name_var: sample}))   # a str predicate on a constant
+        except Exception:
+            return None
 
-    # (a) introspection disabled, a meta name: every execution that is not a cache hit returns None
-    for meta in sorted(names):
-        def decide(t, meta=meta):
+    def rows(sample, disabled, is_query):
+        def decide(t):
+            v = fold_name_test(t, sample)
+            if v is not None:
+                return v
             if t == "self._disable_introspection":
-                return True
-            if t == member_atom:
-                return True
-            if t.startswith("%s == " % name_var):
-                return t == "%s == %r" % (name_var, meta)
+                return disabled
+            if " is " in t and "query_type" in t and parent_var in t:
+                return is_query
             return None
         try:
             _ev, exits = boolx.walk_under(fdn.node, decide)
         except ValueError as e:
             raise AnalysisError("C15.T4: %s" % e)
-        n_exec = 0
+        out = []
         for kind, st, env in exits:
-            if kind != "return":
+            if kind != "return" or st is None:
                 continue
-            v = returned(st, env)
-            if isinstance(st.value, ast.Subscript):
+            if isinstance(st.value, ast.Subscript) and not env.get(boolx.HANDLERS):
                 continue   # cache hit: whatever an earlier (identical) call stored
-            n_exec += 1
-            if not (isinstance(v, ast.Constant) and v.value is None):
-                run.report(r, "%s:ResolutionContext.field_definition:switch-shape" % WRAP, fdn.where(st),
-                           "with introspection disabled, field_definition(%s) can return `%s`: the meta field stays reachable"
-                           % (meta, ast.unparse(v)))
-                break
-        r.instance("disabled: %s -> None on %d executions" % (meta, n_exec))
-    # (b) an ordinary field name: the switch is never consulted
-    def decide_plain(t):
-        if t == member_atom:
-            return False
+            v = boolx.path_subst(st.value, boolx.path_env(env.get(boolx.STMTS, ()), st)) if st.value is not None else ast.Constant(value=None)
+            out.append((st, v))
+        return out
+
+    def meta_of(v):
+        """the meta field a returned module-level name stands for: the first argument of its `Field("__x", ...)` definition"""
+        if not isinstance(v, ast.Name):
+            return None
+        rr = prog.resolve_name(fdn.module, v.id)
+        if rr and rr[0] == "assign" and isinstance(rr[1], ast.Call) and rr[1].args and isinstance(rr[1].args[0], ast.Constant):
+            return rr[1].args[0].value
         return None
-    try:
-        _ev, exits = boolx.walk_under(fdn.node, decide_plain)
-    except ValueError as e:
-        raise AnalysisError("C15.T4: %s" % e)
-    consulted = [(kind, st) for kind, st, env in exits if "self._disable_introspection" in env]
-    r.instance("ordinary names: %d executions, switch consulted on %d" % (len(exits), len(consulted)))
-    if consulted:
-        run.report(r, "%s:ResolutionContext.field_definition:switch-placement" % WRAP, fdn.where(consulted[0][1]) if consulted[0][1] is not None else fdn.where(),
-                   "the disable_introspection test is not confined to the meta names: ordinary fields are affected by it")
+
+    def is_none(v):
+        return isinstance(v, ast.Constant) and v.value is None
+    n_rows = 0
+    for meta in METAS:
+        for disabled in (True, False):
+            for is_query in (True, False):
+                n_rows += 1
+                want = None if disabled or (meta != "__typename" and not is_query) else meta
+                for st, v in rows(meta, disabled, is_query):
+                    got = None if is_none(v) else (meta_of(v) or ast.unparse(v))
+                    if got != want:
+                        run.report(r, "%s:ResolutionContext.field_definition:switch-shape" % WRAP, fdn.where(st),
+                                   "field_definition(%s) with introspection %s on %s returns `%s` (expected %s)"
+                                   % (meta, "disabled" if disabled else "enabled", "the query type" if is_query else "another type",
+                                      ast.unparse(v), want or "None" if want is None else "the %s meta field" % want))
+                        break
+    for sample in ("x", "_x", "x__y"):
+        seen = {}
+        for disabled in (True, False):
+            n_rows += 1
+            for st, v in rows(sample, disabled, True) + rows(sample, disabled, False):
+                seen.setdefault(disabled, set()).add(" ".join(ast.unparse(v).split()))
+                if is_none(v) or meta_of(v) is not None or "field_map" not in ast.unparse(v):
+                    run.report(r, "%s:ResolutionContext.field_definition:switch-placement" % WRAP, fdn.where(st),
+                               "for the ordinary field name %r (introspection %s) the lookup returns `%s` instead of the parent type's "
+                               "own field: ordinary fields are affected by the meta-field handling"
+                               % (sample, "disabled" if disabled else "enabled", ast.unparse(v)))
+                    break
+        if seen.get(True) != seen.get(False):
+            run.report(r, "%s:ResolutionContext.field_definition:switch-placement" % WRAP, fdn.where(),
+                       "the answer for the ordinary field name %r depends on the disable_introspection switch" % sample)
+    r.instance("%d rows (name x switch x parent) decided" % n_rows)
     # the members' own definition of `deprecated` (Field: bool(reason); EnumValue: reason is not None) is what
     # isDeprecated reports, so the visibility filter must use that very attribute
     n_filters = 0
